@@ -107,6 +107,37 @@ Fixpoint swz_indices (m : string) : option (list nat) :=
 Definition find_func (f : string) : option fdef :=
   find (fun d => String.eqb (fd_name d) f) (p_funcs P).
 
+(* C++ overloads (naga_div for int/uint/int3..., naga_f2i32 for float/float2...): the candidate whose
+   by-value parameter types have the shape of the argument values *)
+Definition sty_of_value (v : value) : option sty :=
+  match v with VI32 _ => Some SInt | VU32 _ => Some SUint | VF32 _ => Some SFloat | VBool _ => Some SBool | _ => None end.
+
+Definition value_has_ty (t : ty) (v : value) : bool :=
+  match t, v with
+  | TyS s, _ => match sty_of_value v with Some s' => sty_eqb s s' | None => false end
+  | TyV n s _, VVec (x :: l) =>
+    Nat.eqb (S (List.length l)) n && match sty_of_value x with Some s' => sty_eqb s s' | None => false end
+  | TyV _ _ _, _ => false
+  | TyM c _, VMat l => Nat.eqb (List.length l) c
+  | TyM _ _, _ => false
+  | _, _ => true
+  end.
+
+Fixpoint args_match (ps : list param) (vs : list (option value)) : bool :=
+  match ps, vs with
+  | [], [] => true
+  | p :: ps', v :: vs' =>
+    (match v with Some x => if pa_ref p then true else value_has_ty (pa_ty p) x | None => true end) && args_match ps' vs'
+  | _, _ => false
+  end.
+
+Definition find_overload (f : string) (vs : list (option value)) : option fdef :=
+  match filter (fun d => String.eqb (fd_name d) f) (p_funcs P) with
+  | [] => None
+  | [d] => Some d
+  | ds => match find (fun d => args_match (fd_params d) vs) ds with Some d => Some d | None => None end
+  end.
+
 (* static type of the expression forms that can denote aggregates (needed to resolve member
    names and DefaultConstructible()); None = unknown, the value decides *)
 Fixpoint type_of (fuel : nat) (E : env) (e : expr) : option ty :=
@@ -344,7 +375,10 @@ Definition is_simple_fn (d : fdef) : bool :=
   match simple_body (fd_body d) with Some _ => true | None => false end.
 
 Definition user_simple (fn : string) : bool :=
-  match find_func fn with Some d => is_simple_fn d | None => false end.
+  match filter (fun d => String.eqb (fd_name d) fn) (p_funcs P) with
+  | [] => false
+  | ds => forallb is_simple_fn ds
+  end.
 
 Definition is_pure : expr -> bool := is_pure_gen user_simple.
 
@@ -462,7 +496,7 @@ Fixpoint simple_decls (ds : list (ty * string * expr)) (E : env) (M : memory) : 
   end.
 
 Definition simple_call (fn : string) (vs : list value) (M : memory) : result value :=
-  match find_func fn with
+  match find_overload fn (map Some vs) with
   | None => Fail ("not modelled: unknown function " ++ fn)
   | Some d =>
     if is_simple_fn d then
@@ -477,6 +511,10 @@ Definition simple_call (fn : string) (vs : list value) (M : memory) : result val
   end.
 
 Definition peval := peval_gen simple_call.
+
+(* leaving a scope (block, loop body, function): the cells allocated inside it die; cells are only ever
+   appended, so the surviving memory is the prefix that existed at entry (with its updated contents) *)
+Definition leave (M_entry M_now : memory) : memory := firstn (List.length M_entry) M_now.
 
 Definition label_matches (sel lab : value) : bool :=
   match m_cmp BEq sel lab with Done (VBool b) => b | _ => false end.
@@ -540,12 +578,12 @@ Fixpoint eval (fuel : nat) (E : env) (M : memory) (e : expr) {struct fuel} : res
       if is_atomic_fn fn then Fail "not modelled: atomic inside an expression"
       else if is_intrinsic fn then vs <~ rmap (eval f E M) args ;; intrinsic fn vs
       else
-        match find_func fn with
+        vs <~ rmap (eval f E M) args ;;
+        match find_overload fn (map Some vs) with
         | None => Fail ("not modelled: unknown function " ++ fn)
         | Some d =>
           if existsb pa_ref (fd_params d) then Fail "not modelled: call with reference parameters inside an expression"
           else
-            vs <~ rmap (eval f E M) args ;;
             r <~ run_fn f M d (map (fun v => inl v) vs) ;;
             match fst r with Some v => Done v | None => Fail "call of a void function inside an expression" end
         end
@@ -616,8 +654,8 @@ with run_fn (fuel : nat) (M : memory) (d : fdef) (args : list (value + nat * lis
     em <~ bind_params (fd_params d) args G M ;;
     r <~ exec_block f (fst em) (snd em) (fd_body d) ;;
     match fst r with
-    | OReturn v => Done (v, snd r)
-    | ONormal => Done (None, snd r)
+    | OReturn v => Done (v, leave M (snd r))
+    | ONormal => Done (None, leave M (snd r))
     | _ => Fail "break/continue escaping a function"
     end
   end
@@ -631,7 +669,20 @@ with call_stmt (fuel : nat) (E : env) (M : memory) (fn : string) (args : list ex
     if is_atomic_fn fn then
       match args with
       | EAddr p :: rest =>
-        loc <~ lval f E M p ;; old <~ load M (fst loc) (snd loc) ;;
+        loc <~ lval f E M p ;;
+        if String.eqb fn "metal::atomic_store_explicit" then
+          match rest with
+          | a :: _ =>
+            v <~ eval f E M a ;;
+            v' <~ match type_of 32 E p with
+                  | Some t => match resolve_ty t with TyAtomic s => cast_scalar s v | _ => Done v end
+                  | None => Done v
+                  end ;;
+            M' <~ store M (fst loc) (snd loc) v' ;; Done (None, M')
+          | [] => Fail "atomic: arity"
+          end
+        else
+        old <~ load M (fst loc) (snd loc) ;;
         if String.eqb fn "metal::atomic_load_explicit" then Done (Some old, M)
         else
           match rest with
@@ -645,7 +696,9 @@ with call_stmt (fuel : nat) (E : env) (M : memory) (fn : string) (args : list ex
       end
     else if is_intrinsic fn then v <~ eval f E M (ECall fn args) ;; Done (Some v, M)
     else
-      match find_func fn with
+      (* argument values where they can be evaluated (reference arguments of aggregate type need not be) *)
+      let avs := map (fun a => match (if is_pure a then eval f E M a else Fail "") with Done v => Some v | _ => None end) args in
+      match find_overload fn avs with
       | None => Fail ("not modelled: unknown function " ++ fn)
       | Some d =>
         let fix eval_args (ps : list param) (as_ : list expr) : result (list (value + nat * list nat)) :=
@@ -707,13 +760,13 @@ with exec_stmt (fuel : nat) (E : env) (M : memory) (s : stmt) {struct fuel} : re
       nv <~ binop_val o old v ;; M' <~ store M (fst loc) (snd loc) nv ;; Done (ONormal, E, M')
     | SIf c th el =>
       cv <~ eval f E M c ;; t <~ to_bool cv ;;
-      r <~ exec_block f E M (if t then th else el) ;; Done (fst r, E, snd r)
+      r <~ exec_block f E M (if t then th else el) ;; Done (fst r, E, leave M (snd r))
     | SWhile body =>
       r <~ exec_block f E M body ;;
       match fst r with
-      | ONormal | OContinue => exec_stmt f E (snd r) (SWhile body)
-      | OBreak => Done (ONormal, E, snd r)
-      | OReturn v => Done (OReturn v, E, snd r)
+      | ONormal | OContinue => exec_stmt f E (leave M (snd r)) (SWhile body)
+      | OBreak => Done (ONormal, E, leave M (snd r))
+      | OReturn v => Done (OReturn v, E, leave M (snd r))
       end
     | SSwitch e cases =>
       sel <~ eval f E M e ;;
@@ -739,7 +792,7 @@ with exec_stmt (fuel : nat) (E : env) (M : memory) (s : stmt) {struct fuel} : re
       | None => Done (ONormal, E, M)
       | Some cs =>
         r <~ exec_cases f E M cs ;;
-        Done (match fst r with OBreak => ONormal | o => o end, E, snd r)
+        Done (match fst r with OBreak => ONormal | o => o end, E, leave M (snd r))
       end
     | SBreak => Done (OBreak, E, M)
     | SContinue => Done (OContinue, E, M)
@@ -747,7 +800,7 @@ with exec_stmt (fuel : nat) (E : env) (M : memory) (s : stmt) {struct fuel} : re
     | SReturn (Some (ECall fn args)) =>
       r <~ call_stmt f E M fn args ;; Done (OReturn (fst r), E, snd r)
     | SReturn (Some e) => v <~ eval f E M e ;; Done (OReturn (Some v), E, M)
-    | SBlock b => r <~ exec_block f E M b ;; Done (fst r, E, snd r)
+    | SBlock b => r <~ exec_block f E M b ;; Done (fst r, E, leave M (snd r))
     | SExpr (ECall fn args) => r <~ call_stmt f E M fn args ;; Done (ONormal, E, snd r)
     | SExpr _ => Fail "not modelled: expression statement"
     | SBarrier => Done (ONormal, E, M)
